@@ -78,14 +78,14 @@ def unrelated_controller():
     from pySDC.implementations.convergence_controller_classes.adaptivity import Adaptivity
     from pySDC.implementations.hooks.log_errors import LogLocalErrorPostStep
     from pySDC.implementations.hooks.log_solution import LogSolutionAfterIteration
-    from pySDC.implementations.hooks.log_work import LogWork
+    from pySDC.implementations.hooks.log_work import LogSDCIterations, LogWork
     from pySDC.implementations.problem_classes.Van_der_Pol_implicit import vanderpol
     from pySDC.implementations.sweeper_classes.generic_implicit import generic_implicit
 
     desc = dict(problem_class=vanderpol, problem_params=dict(mu=2.0, newton_tol=1e-10, newton_maxiter=50, u0=np.array([2.0, 0.0])), sweeper_class=generic_implicit,
                 sweeper_params=dict(num_nodes=3, quad_type='RADAU-RIGHT', QI='LU', initial_guess='random'), level_params=dict(dt=0.02, restol=-1), step_params=dict(maxiter=3),
                 convergence_controllers={Adaptivity: dict(e_tol=1e-5)})
-    return controller_nonMPI(2, dict(logger_level=50, dump_setup=False, hook_class=[LogSolutionAfterIteration, LogWork], mssdc_jac=False), desc)
+    return controller_nonMPI(2, dict(logger_level=50, dump_setup=False, hook_class=[LogSolutionAfterIteration, LogWork, LogSDCIterations], mssdc_jac=False), desc)
 
 
 def run_unrelated(ctrl):
@@ -146,7 +146,51 @@ def solo_in_fresh_interpreter(case, first=None):
     raise RuntimeError(f'fresh interpreter failed: {p.stderr[-800:]}')
 
 
+def global_state():
+    """every mutable container (dict/list/set) bound at module level or class level in the loaded pySDC modules: the state that
+    all controllers of a process share"""
+    import inspect
+    import sys
+
+    out = {}
+    for name, mod in list(sys.modules.items()):
+        if not name.startswith('pySDC.') or mod is None:
+            continue
+        for k, v in list(vars(mod).items()):
+            if k.startswith('__'):
+                continue
+            if isinstance(v, (dict, list, set)):
+                try:
+                    out[f'{name}.{k}'] = repr(v)[:4000]
+                except Exception:  # noqa
+                    pass
+            elif inspect.isclass(v) and getattr(v, '__module__', None) == name:
+                for a, av in list(vars(v).items()):
+                    # `attrs` of the frozen classes is the registry of permitted attribute names: convergence controllers append
+                    # their status variables to it by design (it only grows and carries no values)
+                    if not a.startswith('__') and a != 'attrs' and isinstance(av, (dict, list, set)):
+                        try:
+                            out[f'{name}.{k}.{a}'] = repr(av)[:4000]
+                        except Exception:  # noqa
+                            pass
+    return out
+
+
 def run_case(case):
+    # load the shared modules before the snapshot, so that the first case of a process already watches them
+    import pySDC.core.collocation, pySDC.core.controller, pySDC.core.convergence_controller, pySDC.core.hooks, pySDC.core.level, pySDC.core.problem, pySDC.core.step, pySDC.core.sweeper  # noqa
+    import pySDC.implementations.controller_classes.controller_nonMPI, pySDC.implementations.hooks.default_hook, pySDC.implementations.hooks.log_work  # noqa
+
+    before = global_state()
+    r = _run_case(case)
+    after = global_state()
+    changed = [k for k in before if k in after and before[k] != after[k]]
+    r.check(not changed, 'process-wide-state-unchanged', f'{r.key}: building and running controllers changed state shared by every controller of the process: ' + '; '.join(f'{k}: {before[k][:200]} -> {after[k][:200]}' for k in changed[:2]))
+    r.count('shared_containers_watched', len(before))
+    return r
+
+
+def _run_case(case):
     from pySDC.implementations.hooks.log_solution import LogSolution
 
     from vf.checks.C01 import config_key
@@ -374,4 +418,6 @@ def finalize(agg):
     for k in ('oracle:fresh-controller-reproduces', 'oracle:same-controller-rerun-reproduces', 'oracle:fresh-after-unrelated-controller', 'oracle:interleaved-with-unrelated-controller', 'oracle:split-run-bit-identical', 'oracle:unaffected-by-near-twin-controller', 'oracle:controllers-sharing-a-parameter-dictionary'):
         if c.get(k, 0) == 0:
             out.append(f'monitor {k} never evaluated')
+    if c.get('shared_containers_watched', 0) == 0:
+        out.append('no module- or class-level container of pySDC was watched across a case')
     return out
